@@ -335,10 +335,26 @@ func r1010(c *Ctx, r *R) {
 		}
 		return false
 	}
+	// the allocation step: a call of allocate(), or of a helper of the
+	// package that performs it (which then also holds the preset test)
+	var reaches func(h *ssa.Function, depth int) bool
+	reaches = func(h *ssa.Function, depth int) bool {
+		if h == nil || h.Blocks == nil || depth > 2 || h.Pkg != f.Pkg {
+			return false
+		}
+		for _, ci := range callsIn(h) {
+			if nameMatches(callName(ci.Common()), ModPath+".Cluster).allocate") || reaches(ci.Common().StaticCallee(), depth+1) {
+				return true
+			}
+		}
+		return false
+	}
 	allocates := func(b *ssa.BasicBlock) bool {
 		for _, i := range b.Instrs {
-			if ci, ok := i.(ssa.CallInstruction); ok && nameMatches(callName(ci.Common()), ModPath+".Cluster).allocate") {
-				return true
+			if ci, ok := i.(ssa.CallInstruction); ok {
+				if nameMatches(callName(ci.Common()), ModPath+".Cluster).allocate") || reaches(ci.Common().StaticCallee(), 0) {
+					return true
+				}
 			}
 		}
 		return false
@@ -410,19 +426,35 @@ func r1312(c *Ctx, r *R) {
 	for _, dc := range findCallsDeep(f, "(net/url.Values).Set") {
 		ci := dc.Inner
 		args := callArgs(ci.Common())
-		key, ok := constString(args[0])
-		if !ok {
-			continue
+		var keys []string
+		if key, ok := constString(args[0]); ok {
+			keys = []string{key}
+		} else if ks, _ := constStringsReaching(args[0], ssaClosure(f)); len(ks) > 0 {
+			// a loop over a table of (key, value) rows
+			for k := range ks {
+				keys = append(keys, k)
+			}
+			sort.Strings(keys)
 		}
-		n++
 		uncond := true
 		for _, g := range guardsOf(ci.Block()) {
 			if g.Derived || gNil(g, false, isErr) {
 				continue
 			}
+			if ex, isEx := stripLocal(g.Cond).(*ssa.Extract); isEx && ex.Index == 0 {
+				if _, isN := ex.Tuple.(*ssa.Next); isN {
+					continue
+				}
+			}
+			if bo, isB := g.Cond.(*ssa.BinOp); isB && bo.Op == token.LSS && loopHeaderOf(ci.Block()) != nil {
+				continue
+			}
 			uncond = false
 		}
-		r.Check(uncond, "toquery-always:"+key, ci.Pos(), "`"+key+"` is always sent", "AddParams.ToQueryString sends `"+key+"` only under a test: AddParamsFromQuery fills an absent key with a default that may depend on other keys (raw-leaves follows cid-version), so the value the caller set is replaced on the receiving peer and the content is imported with other parameters than asked")
+		for _, key := range keys {
+			n++
+			r.Check(uncond, "toquery-always:"+key, ci.Pos(), "`"+key+"` is always sent", "AddParams.ToQueryString sends `"+key+"` only under a test: AddParamsFromQuery fills an absent key with a default that may depend on other keys (raw-leaves follows cid-version), so the value the caller set is replaced on the receiving peer and the content is imported with other parameters than asked")
+		}
 	}
 	if n == 0 {
 		r.Und("toquery-always", f.Pos(), "ToQueryString sets no key")
@@ -463,7 +495,7 @@ func r149(c *Ctx, r *R) {
 			}
 			if !gNil(g, true, func(v ssa.Value) bool {
 				call, _ := originCallLocal(v)
-				return call != nil && nameMatches(callName(call.Common()), "raft.raftWrapper).WaitForUpdates")
+				return call != nil && callMatches(call.Common(), "raft.raftWrapper).WaitForUpdates")
 			}) {
 				continue
 			}
